@@ -50,6 +50,9 @@ def run(ctx):
   blockify_inverse(ctx)
   large_axis_predicate(ctx)
   reshaper(ctx)
+  # announced statistics (count / sizes / padded size) of the sharded declaration agree with what init builds
+  from . import C07
+  C07.sharded_triple(ctx)
 
 
 # ------------------------------------------------------------------ S1
